@@ -800,6 +800,15 @@ func c04Recv(c *Ctx, allocSafe bool) {
 			segs = append(segs, c04Seg{c04ShortNs, b[i:e]})
 		}
 		scen = append(scen, &c04Scenario{tag: "many-short-gaps", segs: segs, wantFrames: two, wantDrop: "eof", timed: true})
+		// several gaps inside one frame, EACH below T8 but together beyond it, within one read phase (all cuts in the
+		// length prefix, or all in header+body): T8 is an inter-byte-group timer re-armed before every read, so the frame
+		// must come through (after seeded change C04e-1: a deadline pushed only when less than T8/2 was left)
+		for _, gp := range [][2]int{{35, 80}, {45, 70}} {
+			g1, g2 := c04T8Ns*gp[0]/100, c04T8Ns*gp[1]/100
+			scen = append(scen, &c04Scenario{tag: "near-T8-gaps-prefix", segs: []c04Seg{{0, b[:1]}, {g1, b[1:2]}, {g2, b[2:]}}, wantFrames: two, wantDrop: "eof", timed: true})
+			scen = append(scen, &c04Scenario{tag: "near-T8-gaps-body", segs: []c04Seg{{0, b[:6]}, {g1, b[6:9]}, {g2, b[9:]}}, wantFrames: two, wantDrop: "eof", timed: true})
+			scen = append(scen, &c04Scenario{tag: "near-T8-gaps-second-frame", segs: []c04Seg{{0, b[:n0+5]}, {g1, b[n0+5 : n0+8]}, {g2, b[n0+8:]}}, wantFrames: two, wantDrop: "eof", timed: true})
+		}
 		// bad length after an idle gap; bad length with a long gap inside the prefix (timeout wins: the length is never completed)
 		bl := binary.BigEndian.AppendUint32(nil, 0xFFFFFFFF)
 		if !allocSafe {
